@@ -22,7 +22,8 @@ STEPS = [None, 1e-4, 1e-2]
 EPS_M = {'forward': EPS ** 0.5, 'central': EPS ** (2.0 / 3), 'complex': EPS}
 FUNS = ['exp', 'sin', 'cosh', 'arctan', 'square', 'recip2']
 PAIRS = [(g, h) for g in FUNS for h in FUNS]
-POINTS = [[0.7, -1.3, 0.45, 2.1, -0.6, 1.15], [-0.25, 1.9, 0.0, -0.8, 1.4, -2.2]]
+POINTS = [[0.7, -1.3, 0.45, 2.1, -0.6, 1.15], [-0.25, 1.9, 0.0, -0.8, 1.4, -2.2],
+          [1e-4, -3e-6, 2.1, 1e-9, 0.5, -2.5e-11]]     # small non-zero coordinates: the default step must not collapse
 
 NP_FUN = dict(exp=np.exp, sin=np.sin, cosh=np.cosh, arctan=np.arctan,
               square=lambda t: t * t, recip2=lambda t: 1.0 / (2.0 + t * t))
@@ -457,7 +458,7 @@ def work(chunk, full=False):
 
 def build_units(ctx):
     full = not ctx.quick
-    pts = [0, 1] if full else [ctx.seed % 2]
+    pts = [0, 1, 2] if full else [ctx.seed % 2, 2]
     units = []
     for n in range(1, 7):
         for m in range(1, 6):
